@@ -109,6 +109,10 @@ fn main() {
                 }
             }
         }
+        "c06-baseline" => {
+            engine::install_panic_hook();
+            std::process::exit(props::c06::baseline(&args[2..]));
+        }
         "c06-worker" => {
             engine::install_panic_hook();
             std::process::exit(props::c06::worker(&args[2..]));
